@@ -40,6 +40,7 @@ class Ctl(object):
         self.snapshot = None
         self.trace = []
         self.inject = inject or {}     # tick number -> callable, run *before* that operation
+        self.points = []
         self.storage = None
         self.enabled = True
         self.in_inject = False
@@ -66,11 +67,28 @@ class Ctl(object):
             raise Crash()
         fn = self.inject.get(self.n) if self.inject else None
         if fn is not None:
-            self.in_inject = True
-            try:
-                fn()
-            finally:
-                self.in_inject = False
+            self._run_injected(fn)
+        for pt in self.points:
+            # pt = [symbolic tick number, callable, fired]; fires *before* operation number pt[0].
+            # Points are registered in non-decreasing order of their tick (harness pre-condition), so only
+            # the first unfired one needs a solver query per tick.
+            if pt[2]:
+                continue
+            if sym_true(lambda: self.n == pt[0]):
+                pt[2] = True
+                self._run_injected(pt[1])
+            else:
+                break
+
+    def _run_injected(self, fn):
+        self.in_inject = True
+        try:
+            fn()
+        finally:
+            self.in_inject = False
+
+    def add_point(self, sym_tick, fn):
+        self.points.append([sym_tick, fn, False])
 
 
 def _wrap_created(storage, f, name):
@@ -233,7 +251,11 @@ def cleanup(tmpdirs):
 def dump(ix, keyfield="k"):
     """Logical content: (doc_count, sorted stored docs, lexicon with postings keyed by the doc key)."""
     with ix.searcher() as s:
-        r = s.reader()
+        return dump_reader(s.reader(), keyfield)
+
+
+def dump_reader(r, keyfield="k"):
+    if True:
         docs = sorted(tuple(sorted((k, repr(v)) for k, v in d.items())) for d in r.all_stored_fields())
         lex = []
         for fname, text in r.all_terms():
